@@ -50,7 +50,11 @@ type scriptDriver struct {
 	next     int
 	sends    []scriptRet // d.TTL = ttl
 	returned []scriptRet
+	limit    time.Duration // virtual-time watchdog
+	overrun  bool
 }
+
+var errScriptWatchdog = fmt.Errorf("harness watchdog: virtual time limit exceeded")
 
 func (s *scriptDriver) GetDriverInfo() common.TracerouteDriverInfo {
 	return common.TracerouteDriverInfo{SupportsParallel: s.parallel}
@@ -59,6 +63,10 @@ func (s *scriptDriver) GetDriverInfo() common.TracerouteDriverInfo {
 func (s *scriptDriver) SendProbe(ttl uint8) error {
 	s.mu.Lock()
 	defer s.mu.Unlock()
+	if s.limit > 0 && time.Since(s.start) > s.limit {
+		s.overrun = true
+		return errScriptWatchdog
+	}
 	s.sends = append(s.sends, scriptRet{time.Since(s.start), Delivery{TTL: int(ttl)}})
 	return nil
 }
@@ -68,6 +76,11 @@ func (s *scriptDriver) ReceiveProbe(timeout time.Duration) (*common.ProbeRespons
 	for {
 		s.mu.Lock()
 		now := time.Since(s.start)
+		if s.limit > 0 && now > s.limit {
+			s.overrun = true
+			s.mu.Unlock()
+			return nil, errScriptWatchdog
+		}
 		if s.next < len(s.dl) && time.Duration(s.dl[s.next].AtNs) <= now {
 			d := s.dl[s.next]
 			s.next++
@@ -119,6 +132,8 @@ func runEngine(t *testing.T, c *EngineCase) *engineOutcome {
 		}()
 		synctest.Test(t, func(t *testing.T) {
 			drv := &scriptDriver{parallel: c.Engine == "parallel", start: time.Now(), dl: dl}
+			nn := time.Duration(c.MaxTTL - c.MinTTL + 1)
+			drv.limit = 3*(nn*time.Duration(c.TimeoutNs+c.PollNs+c.DelayNs)) + time.Second
 			out.drv = drv
 			p := common.TracerouteParams{MinTTL: uint8(c.MinTTL), MaxTTL: uint8(c.MaxTTL), TracerouteTimeout: time.Duration(c.TimeoutNs),
 				PollFrequency: time.Duration(c.PollNs), SendDelay: time.Duration(c.DelayNs)}
